@@ -4,8 +4,12 @@ mod decoder;
 mod diag;
 mod dp;
 mod gap;
+mod gsd;
+mod las;
+mod net;
 mod phyrx;
 mod prm;
+mod station;
 mod util;
 
 use std::io::{BufRead, Write};
@@ -30,7 +34,11 @@ fn engine(name: &str) -> Option<(fn(&mut Vec<String>, u64, bool), Box<dyn Execut
         "diag" => Some((diag::gen, Box::new(diag::Exec::default()))),
         "dp" => Some((dp::gen, Box::new(dp::Exec::new()))),
         "gap" => Some((gap::gen, Box::new(Stateless(gap::exec)))),
+        "station" => Some((station::gen, Box::new(station::Exec::new()))),
         "prm" => Some((prm::gen, Box::new(prm::PrmExec::new()))),
+        "gsd" => Some((gsd::gen, Box::new(Stateless(gsd::exec)))),
+        "las" => Some((las::gen, Box::new(las::Exec::new()))),
+        "net" => Some((net::gen, Box::new(net::Exec::new()))),
         "phyrx" => Some((phyrx::gen, Box::new(phyrx::Exec::new()))),
         _ => None,
     }
